@@ -377,7 +377,7 @@ ODD_NAMES = ["2y", ".p", "a b", "x[1]", "c", "x", "x_", "c1", "obj", "1a"]
 def roundtrip_scenario(lp, sid, r, fmt, ext=""):
     """write the API-built problem, read it back, compare (rt_check), solve both, compare answers"""
     f = "rt_%s.%s%s" % (sid, fmt.lower(), ext)
-    lines = ["scenario %s" % sid, "handler on"] + lpfam.build_cmds(lp, "h0", r.choice(["load", "create"])) + ["dump h0"]
+    lines = ["scenario %s" % sid, "handler on"] + lpfam.build_cmds(lp, "h0", r.choice(lpfam.BUILD_MODES)) + ["dump h0"]
     for j in lp.get("ints", []):
         pass
     lines += ["write_prob h0 %s %s" % (f, fmt), "read_prob h1 %s %s" % (f, fmt), "dump h1",
